@@ -172,6 +172,32 @@ def h_tt_nu(ctx, case):
     return 'ok'
 
 
+def h_tt_nu_width(ctx, case):
+    """_calculate_tt_nu with cell counts as they come out of a statistics
+    file (64-bit integers): the integer arithmetic on them stays within
+    64 bits for every cluster size up to the bound, and the degrees of
+    freedom are the Welch-Satterthwaite value"""
+    n1 = ctx.int('n1', case.get('min_cells', 2), case['max_cells'])
+    n2 = ctx.int('n2', case.get('min_cells', 2), case['max_cells'])
+    N1 = arr(ctx, [n1], dtype=np.int64)
+    N2 = arr(ctx, [n2], dtype=np.int64)
+    try:
+        tt, nu = ST._calculate_tt_nu(arr(ctx, [1.0]), arr(ctx, [2.0]), N1,
+                                     arr(ctx, [1.5]), arr(ctx, [2.0]), N2)
+    except Exception as e:
+        ctx.exception(e)
+        return 'EXC ' + type(e).__name__
+    ctx.reach('computed')
+    if ctx.mode != 'sym':
+        # nu = (v1/n1 + v2/n2)^2 / (v1^2/(n1^2 (n1-1)) + v2^2/(n2^2 (n2-1)))
+        a, b = float(n1), float(n2)
+        want = (2.0 / a + 2.0 / b) ** 2 / (
+            4.0 / (a * a * (a - 1)) + 4.0 / (b * b * (b - 1)))
+        ctx.check(abs(float(nu[0]) - want) <= 1e-6 * want,
+                  'nu == Welch-Satterthwaite degrees of freedom')
+    return 'ok'
+
+
 # ------------------------------------------------------------ mask route
 def setup_mask(case, mode):
     set_mode(mode)
@@ -435,6 +461,18 @@ HARNESSES = [
                    'distance comparisons - not registered)',
             classify=classify_pen, expect_reach=['tested'], selftest=20,
             split=32, query_timeout_ms=60000),
+    Harness('welch_cell_count_width', h_tt_nu_width, setup=setup_tt,
+            cases=[{'max_cells': 10000000},
+                   # (2**21 cells: n**3 wraps twice and comes out right;
+                   # the second range starts above that coincidence)
+                   {'min_cells': 2200000, 'max_cells': 10000000}],
+            funcs=['stats_utils._calculate_tt_nu'],
+            stubs=['numpy -> shim with integer-width obligations (powers '
+                   'of 64-bit integers included)'],
+            bounds='two clusters of 2 .. 10,000,000 cells (64-bit counts '
+                   'as read from a statistics file); means and variances '
+                   'fixed',
+            expect_reach=['computed']),
     Harness('welch_statistic', h_tt_nu, setup=setup_tt, cases=[{}],
             funcs=['stats_utils._calculate_tt_nu'],
             stubs=['sqrt -> fresh s>=0, s*s==x'],
